@@ -30,11 +30,18 @@ THEOREMS = {
     "C03": _t("C03", "FlooVerif.C03.pack_unpack", "FlooVerif.C03.pack_lt", "FlooVerif.C03.port_fits"),
     "C04": _t("C04", "FlooVerif.C04.lockstep", "FlooVerif.C04.step_closer", "FlooVerif.C04.no_y_to_x_turn",
               "FlooVerif.C04.column_decision", "FlooVerif.C04.allowed_y_continuation", "FlooVerif.C04.dor_reaches") +
-           _t("C07XY", "FlooVerif.C07U.xy_ids_fit"),
+           _t("C07XY", "FlooVerif.C07U.xy_ids_fit") +
+           _t("C04U", "FlooVerif.C04U.array_is_grid", "FlooVerif.C04U.wiring_agrees_with_move"),
     "C05": _t("C05", "FlooVerif.C05U.fillFree_paired", "FlooVerif.C05U.paired_same_neighbour") +
            _t("C05Full", "FlooVerif.C05U.routers_paired", "FlooVerif.C05U.router_paired", "FlooVerif.C05U.place_spec",
-              "FlooVerif.C05U.place_keys", "FlooVerif.C05U.pairedGraph_of_B", "FlooVerif.C05U.onlyLinks_of_B"),
-    "C06": _t("C06", "FlooVerif.C06U.zip_replicate_eq", "FlooVerif.C06U.getD_flatMap_replicate"),
+              "FlooVerif.C05U.place_keys", "FlooVerif.C05U.pairedGraph_of_B", "FlooVerif.C05U.onlyLinks_of_B") +
+           _t("C05Graph", "FlooVerif.C05G.generated_routers_paired", "FlooVerif.C05G.createNetwork_inv",
+              "FlooVerif.C05G.inv_createRouters", "FlooVerif.C05G.inv_createEndpoints", "FlooVerif.C05G.inv_createConnections",
+              "FlooVerif.C05G.pairedGraph_of_inv", "FlooVerif.C05G.onlyLinks_of_inv", "FlooVerif.C05G.bidirectional_of_valid"),
+    "C06": _t("C06", "FlooVerif.C06U.pairing_agrees", "FlooVerif.C06U.zip_replicate_eq", "FlooVerif.C06U.zip_replicate_eq'",
+              "FlooVerif.C06U.getD_flatMap_replicate") +
+           _t("C06Grid", "FlooVerif.C06G.spec_autolinks_in_graph") + _t("C06Tree", "FlooVerif.C06T.tree_ext") +
+           _t("C04U", "FlooVerif.C04U.array_is_grid"),
     "C07": _t("C07", "FlooVerif.C07U.id_eq_uid", "FlooVerif.C07U.idOf_eq", "FlooVerif.C07U.uids_dense", "FlooVerif.C07U.id_fits") +
            _t("C07XY", "FlooVerif.C07U.xy_ids_fit", "FlooVerif.C07U.coord_fits", "FlooVerif.C07U.listMin_le", "FlooVerif.C07U.listMax_ge"),
     "C08": _t("C08", "FlooVerif.C08U.portElem_depth", "FlooVerif.C08U.kept_length", "FlooVerif.C08U.portElem_single"),
@@ -54,7 +61,8 @@ THEOREMS = {
               "FlooVerif.C11.pkg_names_and_directions", "FlooVerif.C11.hwOffers_spec"),
     "C12": _t("C12", "FlooVerif.C12.balanced_sound", "FlooVerif.C12.unbalanced_close", "FlooVerif.C12.lit_fits_iff") +
            _t("C12U", "FlooVerif.C12U.ep_enum_names_distinct", "FlooVerif.C12U.ep_enum_member_unique", "FlooVerif.C12U.sam_idx_names_distinct"),
-    "C13": _t("C13", "FlooVerif.C13U.sam_count", "FlooVerif.C13U.cfg_num_sam_rules", "FlooVerif.C13U.router_counts"),
+    "C13": _t("C13", "FlooVerif.C13U.sam_count", "FlooVerif.C13U.cfg_num_sam_rules", "FlooVerif.C13U.router_counts") +
+           _t("C13Order", "FlooVerif.C13U.sam_idx_enumerates", "FlooVerif.C13U.names_nodup_of_genSam", "FlooVerif.C13U.dict_of_nodup"),
     "C14": _t("C14", "FlooVerif.C14.lower_bound_of_potValid", "FlooVerif.C14.route_is_shortest",
               "FlooVerif.C14.not_shortest_of_shorter") + [("FlooVerif.potential_lower_bound", "FlooVerif.Lemmas.Paths")] +
            _t("C02U", "FlooVerif.C02U.route_is_minimal", "FlooVerif.C02U.tables_deliver"),
